@@ -88,7 +88,7 @@ impl Scenario for EcdsaNet {
             real: &["bsv::ECDSA::{sign_with_deterministic_k, sign_with_random_k (OsRng behind the cfg(bsv_verif) hook), sign_with_k, sign_digest_with_deterministic_k, verify_digest, verify_hashbuf}", "bsv::PrivateKey::sign_message", "bsv::Signature::{verify_message, r, s}", "bsv::PublicKey::{verify_message, is_valid_message}", "bsv::ECDH::derive_shared_key"],
             stub: &["RefVerifier: textbook ECDSA verification over k256 group arithmetic", "RefSigner: RFC 6979 HMAC-SHA256 (and the section 3.6 additional-data variant over SHA-256 or double SHA-256) nonce generation + textbook signing + low-S, written against sha2 only", "entropy source = script installed through the hook", "S7 (bit-for-bit RFC 6979 equality) and the reference half of ECDH are reference-model oracles without a simulator dimension of their own; they ride in this world because it already exists"],
             assumptions: &["reversed-nonce mode is modelled as RFC 6979 with the byte-reversed digest as h1; the message scalar is always the big-endian digest", "k256's scalar/point arithmetic is trusted by both sides"],
-            required_probes: &["sign_det", "sign_det_reversed", "sign_random_k", "sign_with_k", "sign_digest", "sign_message", "random_k_equals_reference", "entropy_isolation_checked", "mispaired_msg", "mispaired_hash", "mispaired_key", "replayed", "ecdh", "key_near_n", "uncompressed_key", "sign_raw_digest", "raw_digest_ge_n"],
+            required_probes: &["sign_det", "sign_det_reversed", "sign_random_k", "sign_with_k", "sign_digest", "sign_message", "random_k_equals_reference", "entropy_isolation_checked", "mispaired_msg", "mispaired_hash", "mispaired_key", "replayed", "ecdh", "key_near_n", "uncompressed_key", "sign_raw_digest", "raw_digest_ge_n", "same_message_other_key", "verify_with_other_key_encoding"],
             quick_runs: 20000,
             thorough_runs: 1500000,
             rlimit_as: 4 << 30,
@@ -105,10 +105,14 @@ impl Scenario for EcdsaNet {
             match rng.weighted(&[45, 35, 8, 12]) {
                 0 => {
                     let entry = *rng.pick(&["det", "det", "det_rev", "random_k", "random_k", "random_k_rev", "with_k", "digest", "sign_message"]);
-                    let mlen = match rng.below(6) {
-                        0 => 0,
-                        1 => rng.range(1, 64) as usize,
-                        2 if tier == Tier::Thorough => rng.range(64, 4096) as usize,
+                    let mlen = match rng.below(40) {
+                        0..=5 => 0,
+                        6..=12 => rng.range(1, 64) as usize,
+                        13..=16 => *rng.pick(&[55usize, 56, 63, 64, 65, 119, 120, 127, 128]),
+                        17..=19 => rng.range(64, 4096) as usize,
+                        // around the 64 KiB mark (buffer / chunk boundaries in streaming code)
+                        20 => rng.range(65_530, 65_545) as usize,
+                        21 if tier == Tier::Thorough => rng.range(65_546, 300_000) as usize,
                         _ => rng.range(0, 200) as usize,
                     };
                     let (script, ekind) = entropy_kind(rng);
@@ -148,13 +152,16 @@ impl Scenario for EcdsaNet {
                     }
                     let pairing = *rng.pick(&["right", "right", "right", "other_msg", "other_hash", "other_key"]);
                     events.push(json!({"op": "deliver", "slot": rng.below(slots), "pairing": pairing, "verifier": *rng.pick(&["verify_digest", "verify_hashbuf", "sig_verify_message", "pk_verify_message", "is_valid_message"]),
-                        "other_key": gen_key(rng), "flip": rng.below(1 << 16)}));
+                        "other_key": gen_key(rng), "flip": rng.below(1 << 16), "other_encoding": rng.chance(1, 3)}));
                 }
                 2 => {
                     if slots == 0 {
                         continue;
                     }
-                    events.push(json!({"op": "resign", "slot": rng.below(slots), "entropy": hx(&rng.bytes(32))}));
+                    // the same request again - under another entropy script, and sometimes with ANOTHER private key
+                    // right after (nothing may be carried over from the previous signature of that message)
+                    let other = if rng.chance(1, 2) { Some(gen_key(rng)) } else { None };
+                    events.push(json!({"op": "resign", "slot": rng.below(slots), "entropy": hx(&rng.bytes(32)), "other_key": other}));
                 }
                 _ => events.push(json!({"op": "ecdh", "a": gen_key(rng), "b": gen_key(rng), "ac": rng.chance(1, 2), "bc": rng.chance(1, 2)})),
             }
@@ -182,6 +189,9 @@ impl Scenario for EcdsaNet {
                         }
                         let mut r = requests[i].clone();
                         r["entropy"] = ev["entropy"].clone();
+                        if let Some(k) = ev.get("other_key").and_then(|k| k.as_str()) {
+                            r["key"] = json!(k);
+                        }
                         r
                     } else {
                         ev.clone()
@@ -340,6 +350,11 @@ impl Scenario for EcdsaNet {
                     if is_resign {
                         // S4 reproducibility: same request, different entropy script, different history
                         let i = jusize(ev, "slot");
+                        if slots[i].key != key {
+                            // different signer for the same message: only the reference comparison above applies
+                            ctx.probe("same_message_other_key");
+                            continue;
+                        }
                         ctx.probe("entropy_isolation_checked");
                         let same = slots[i].r == r && slots[i].s == s;
                         if !randomised && !same {
@@ -428,7 +443,12 @@ impl Scenario for EcdsaNet {
                     ctx.event(seq, "deliver", &format!("{}/{}/{}", pairing, verifier, expect));
                     ctx.fault("replay");
                     ctx.probe("replayed");
-                    let pkb = rf::pubkey_of(&vkey, sl.compressed).unwrap();
+                    // the signer's public key is a point: presenting it in the other SEC1 encoding changes nothing
+                    let enc = if jbool(ev, "other_encoding") { !sl.compressed } else { sl.compressed };
+                    if jbool(ev, "other_encoding") {
+                        ctx.probe("verify_with_other_key_encoding");
+                    }
+                    let pkb = rf::pubkey_of(&vkey, enc).unwrap();
                     let pk = match PublicKey::from_bytes(&pkb) {
                         Ok(p) => p,
                         Err(_) => {
